@@ -392,22 +392,157 @@ def empty_matrix_rows(ctx, rule: str):
 
 
 # ------------------------------------------------------------------ which property files which mechanism
+# ------------------------------------------------------------------ a term may not appear under two numerical scalings
+def scaling_conflict_guard(ctx, rule: str):
+    """check_terms: every term's non-literal factor tuple is remembered, and meeting it again is an error — for one-factor terms
+    as much as for products (`2:a + a` must be rejected whichever comes first)."""
+    P = ctx.project
+    gt = P.func("formulaic.parser.parser.DefaultFormulaParser.get_terms_from_ast")
+    cands = [g for q, g in P.functions.items() if q.startswith(gt.qualname + ".<locals>.") or q == gt.qualname]
+    from ..util import atom_mapper, reach_condition, truth_table
+    n = 0
+    for g in cands:
+        for lp in walk_no_nested(g.node):
+            if not isinstance(lp, ast.For):
+                continue
+            adds = [st for st in ast.walk(lp) if isinstance(st, ast.Expr) and sym.pm("VAR_seen.add(ANY_h)", st.value) is not None]
+            for ad in adds:
+                b = sym.pm("VAR_seen.add(ANY_h)", ad.value)
+                seen, h = b["VAR_seen"], b["ANY_h"]
+                raises = [r for r in ast.walk(lp) if isinstance(r, ast.Raise)]
+                conds = [(r, reach_condition(P, r, mention=seen)) for r in raises]
+                conds = [(r, c) for r, c in conds if c is not None]
+                if not conds:
+                    continue
+                n += 1
+                ctx.look()
+                ok = any(truth_table(c, atom_mapper({f"{h} in {seen}": 0}), 1) == (False, True) for _r, c in conds)
+                rc_add = reach_condition(P, ad)
+                ok_add = rc_add is None or truth_table(rc_add, atom_mapper({f"{h} in {seen}": 0}), 1) in ((True, False), (True, True))
+                ctx.check(ok and ok_add, rule, "a term met again under another numerical scaling is rejected, whatever its number of factors", g.module.line(ad),
+                          ctx.construct(g, text="scaling conflict"),
+                          f"the duplicate test is `{[norm(c)[:90] for _r, c in conds]}`; it must be exactly `{h} in {seen}` for every term (and every term must be "
+                          f"remembered): otherwise `2:a + a` is accepted with both terms while `a + 2:a` is rejected")
+    ctx.floor(rule, n, 1, "duplicate-term guards in check_terms")
+
+
+# ------------------------------------------------------------------ poly() is total in its degree
+def poly_degree_total(ctx, rule: str):
+    """`poly` is called with degree = (number of levels − 1) by the polynomial contrasts: one level gives degree 0, which must yield
+    the empty basis, not an error.  No `raise` of poly may depend on `degree`."""
+    P = ctx.project
+    f = P.func("formulaic.transforms.poly.poly")
+    from ..util import reach_condition
+    deg = param_names(f.node)[1]
+    ctx.look()
+    bad = []
+    for r in walk_no_nested(f.node):
+        if isinstance(r, ast.Raise):
+            rc = reach_condition(P, r, mention=deg)
+            if rc is not None:
+                bad.append(norm(rc)[:80])
+    ctx.check(not bad, rule, "poly accepts every degree, including 0 (a one-level polynomial contrast has no columns)", f.where, ctx.construct(f, text="degree is not rejected"),
+              f"poly raises under `{bad}`: contr.poly for a single level asks for degree 0 and must get the n×0 basis")
+
+
+# ------------------------------------------------------------------ memoised views of a formula's terms are dropped by EVERY mutator
+def derived_memo_invalidated(ctx, rule: str):
+    """If SimpleFormula keeps a memo of something derived from its terms (an attribute that a method fills when it finds it None),
+    every method that stores into or deletes from the term list must reset it — deletion included, which does not re-order."""
+    P = ctx.project
+    SF = P.cls("formulaic.formula.SimpleFormula")
+    memos = set()
+    for name, m in SF.methods.items():
+        if name == "__init__":
+            continue
+        tested = {norm(c.left) for c in ast.walk(m.node) if isinstance(c, ast.Compare) and len(c.ops) == 1 and isinstance(c.ops[0], (ast.Is, ast.IsNot))
+                  and norm(c.comparators[0]) == "None" and norm(c.left).startswith("self.")}
+        filled = {norm(t) for st in walk_no_nested(m.node) if isinstance(st, (ast.Assign, ast.AnnAssign)) and getattr(st, "value", None) is not None
+                  for t in (st.targets if isinstance(st, ast.Assign) else [st.target]) if norm(t).startswith("self.") and not is_const(st.value, None)}
+        memos |= (tested & filled)
+    memos = {m for m in memos if m not in ("self.__terms", "self.ordering")}
+    if not memos:
+        ctx.ok(rule, "SimpleFormula keeps no memo derived from its terms", SF.where, "nothing to invalidate")
+        return
+
+    def resets(m, attr, depth=0) -> bool:
+        for st in walk_no_nested(m.node):
+            if isinstance(st, (ast.Assign, ast.AnnAssign)) and getattr(st, "value", None) is not None and is_const(st.value, None) and \
+                    any(norm(t) == attr for t in (st.targets if isinstance(st, ast.Assign) else [st.target])):
+                return True
+            if depth < 2 and isinstance(st, ast.Expr) and isinstance(st.value, ast.Call) and isinstance(st.value.func, ast.Attribute) and dotted(st.value.func.value) == "self" \
+                    and st.value.func.attr in SF.methods and resets(SF.methods[st.value.func.attr], attr, depth + 1):
+                return True
+        return False
+    for name, m in SF.methods.items():
+        mutates = any((isinstance(st, (ast.Assign, ast.AugAssign)) and any("self.__terms" in norm(t) for t in (st.targets if isinstance(st, ast.Assign) else [st.target])))
+                      or (isinstance(st, ast.Delete) and any("self.__terms" in norm(t) for t in st.targets))
+                      or (isinstance(st, ast.Expr) and isinstance(st.value, ast.Call) and isinstance(st.value.func, ast.Attribute) and norm(st.value.func.value) == "self.__terms"
+                          and st.value.func.attr in ("insert", "append", "extend", "pop", "remove", "clear", "sort", "reverse", "__setitem__", "__delitem__"))
+                      for st in walk_no_nested(m.node))
+        if not mutates or name == "__init__":
+            continue
+        for attr in sorted(memos):
+            ctx.look()
+            ctx.check(resets(m, attr), rule, f"SimpleFormula.{name} drops the memo {attr}", m.where, ctx.construct(m, text=f"invalidate {attr}"),
+                      f"`{name}` changes the term list but leaves `{attr}` as it was: the memoised value (e.g. the required variables) still describes the terms "
+                      f"before the change")
+
+
+# ------------------------------------------------------------------ re.sub: user text is never the replacement TEMPLATE
+def regex_replacement_literal(ctx, rule: str):
+    """In the parser and the name sanitiser, text that comes from the formula (a quoted name, an alias) may be inserted by re.sub
+    only through a callable replacement (or after escaping): as a replacement TEMPLATE its backslashes and group references are
+    interpreted (backslash-t becomes a TAB, backslash-u raises re.error out of the parser)."""
+    P = ctx.project
+    n = 0
+    for q, f in sorted(P.functions.items()):
+        if isinstance(f.node, ast.Lambda) or not (f.module.name.startswith("formulaic.parser") or f.module.name in ("formulaic.utils.code", "formulaic.utils.stateful_transforms")):
+            continue
+        env = None
+        for c in walk_no_nested(f.node):
+            if not (isinstance(c, ast.Call) and isinstance(c.func, ast.Attribute) and c.func.attr in ("sub", "subn")):
+                continue
+            is_mod = norm(c.func.value) == "re"
+            repl = (c.args[1] if len(c.args) > 1 else kwarg(c, "repl")) if is_mod else (c.args[0] if c.args else kwarg(c, "repl"))
+            if repl is None:
+                continue
+            n += 1
+            ctx.look()
+            if isinstance(repl, ast.Name):
+                if env is None:
+                    from ..util import single_assignment_env
+                    env = single_assignment_env(f.node)
+                repl = env.get(repl.id, repl)
+            safe = isinstance(repl, ast.Lambda) or (isinstance(repl, ast.Constant) and isinstance(repl.value, str) and "\\" not in repl.value) or \
+                (isinstance(repl, ast.Name) and (P.resolve_in(f, repl) or "") in P.functions) or \
+                (isinstance(repl, ast.Call) and (dotted(repl.func) or "").endswith(("re.escape", "functools.partial"))) or \
+                (isinstance(repl, ast.Attribute))
+            ctx.check(safe, rule, "text taken from the formula is not used as a regular-expression replacement template", f.module.line(c),
+                      ctx.construct(f, text=f"replacement of {norm(c.func)}"),
+                      f"`{norm(c)[:110]}` passes `{norm(repl)[:60]}` as the replacement template: a back-quoted name containing a backslash is rewritten "
+                      f"(backslash-t becomes a TAB) or makes re.sub raise re.error instead of a formula error; use a callable replacement")
+    if n == 0:
+        ctx.ok(rule, "no regular-expression substitution in the parser / sanitiser", "formulaic/parser", "nothing to check")
+
+
 _ATTACH = {
-    "C01": [("W1", call_opening), ("W2", ordering_coerced)],
+    "C01": [("W1", call_opening), ("W2", ordering_coerced), ("W3", scaling_conflict_guard)],
     "C02": [("W1", captured_context_order)],
     "C04": [("W1", lambda c, r: map_dict_discipline(c, r, "state"))],
-    "C05": [("W1", record_frame), ("W2", contrast_wrap_is_positional)],
+    "C05": [("W1", record_frame), ("W2", contrast_wrap_is_positional), ("W3", joint_generation_decision), ("W4", empty_matrix_rows)],
     "C06": [("W1", find_nulls_no_shortcut), ("W2", empty_matrix_rows)],
     "C07": [("W1", joint_generation_decision), ("W2", find_nulls_no_shortcut), ("W3", empty_matrix_rows)],
     "C08": [("W1", record_frame)],
     "C09": [("W1", lambda c, r: map_dict_discipline(c, r, "state"))],
     "C10": [("W1", variables_before_instrumentation)],
-    "C11": [("W1", contrast_wrap_is_positional)],
-    "C14": [("W1", ast_args_guarded), ("W2", call_opening)],
-    "C15": [("W1", call_opening), ("W2", sanitizer_discipline)],
-    "C17": [("W1", sanitizer_discipline), ("W2", fresh_union), ("W3", variables_before_instrumentation), ("W4", captured_context_order)],
+    "C11": [("W1", contrast_wrap_is_positional), ("W2", poly_degree_total)],
+    "C14": [("W1", ast_args_guarded), ("W2", call_opening), ("W3", regex_replacement_literal)],
+    "C15": [("W1", call_opening), ("W2", sanitizer_discipline), ("W3", regex_replacement_literal)],
+    "C17": [("W1", sanitizer_discipline), ("W2", fresh_union), ("W3", variables_before_instrumentation), ("W4", captured_context_order),
+            ("W5", derived_memo_invalidated)],
     "C18": [("W1", lambda c, r: map_dict_discipline(c, r, "fresh")), ("W2", fresh_union)],
-    "C19": [("W1", ordering_coerced)],
+    "C19": [("W1", ordering_coerced), ("W2", derived_memo_invalidated)],
 }
 
 
@@ -423,17 +558,20 @@ def _shared(modname: str, fname: str):
 
 # mechanisms that several properties stand on (the seeding waves showed mutants of them being filed under any of these properties)
 _SHARED = {
-    "C02": [("X1", "c06", "r3"), ("X2", "c08", "r3"), ("X3", "c06", "r2")],
-    "C03": [("X1", "c02", "r7"), ("X2", "c02", "r6")],
-    "C04": [("X1", "c02", "r7"), ("X2", "c05", "r3"), ("X3", "c03", "r6")],
+    "C02": [("X1", "c06", "r3"), ("X2", "c08", "r3"), ("X3", "c06", "r2"), ("X4", "c09", "r1")],
+    "C03": [("X1", "c02", "r7"), ("X2", "c02", "r6"), ("X3", "c18", "r8")],
+    "C04": [("X1", "c02", "r7"), ("X2", "c05", "r3"), ("X3", "c03", "r6"), ("X4", "c09", "r2")],
     "C05": [("X1", "c02", "r2"), ("X2", "c04", "r3"), ("X3", "c18", "r8")],
-    "C06": [("X1", "c18", "r8")],
-    "C07": [("X1", "c06", "r5"), ("X2", "c18", "r2")],
-    "C09": [("X1", "c13", "r3")],
-    "C10": [("X1", "c03", "r6")],
-    "C11": [("X1", "c08", "r3"), ("X2", "c08", "r4"), ("X3", "c09", "r3")],
-    "C13": [("X1", "c18", "r4")],
-    "C20": [("X1", "c13", "r3")],
+    "C06": [("X1", "c18", "r8"), ("X2", "c05", "r5")],
+    "C07": [("X1", "c06", "r5"), ("X2", "c18", "r2"), ("X3", "c18", "r1"), ("X4", "c18", "r8"), ("X5", "c18", "r3")],
+    "C08": [("X1", "c02", "r6")],
+    "C09": [("X1", "c13", "r3"), ("X2", "c08", "r1")],
+    "C10": [("X1", "c03", "r6"), ("X2", "c03", "r1"), ("X3", "c09", "r2"), ("X4", "c18", "r8")],
+    "C11": [("X1", "c08", "r3"), ("X2", "c08", "r4"), ("X3", "c09", "r3"), ("X4", "c02", "r7"), ("X5", "c09", "r1")],
+    "C13": [("X1", "c18", "r4"), ("X2", "c18", "r8"), ("X3", "c04", "r4")],
+    "C17": [("X1", "c10", "r3"), ("X2", "c18", "r4")],
+    "C18": [("X1", "c03", "r3"), ("X2", "c02", "r2")],
+    "C20": [("X1", "c13", "r3"), ("X2", "c02", "r2"), ("X3", "c02", "r7")],
 }
 for _p, _lst in _SHARED.items():
     _ATTACH.setdefault(_p, [])
